@@ -1,5 +1,6 @@
 import Stingray.Driver.C05
 import Stingray.Driver.C17
+import Stingray.Driver.C16
 /-!
 Line protocol driver: `lake env lean --run Driver.lean < requests > answers`.
 One request per line: `<property> <op> <args…>` separated by single spaces; one answer line each.
@@ -11,6 +12,7 @@ def dispatch (line : String) : String :=
   match (line.trimAscii.toString.splitOn " ") with
   | "C05" :: rest => C05.handle rest
   | "C17" :: rest => C17.handle rest
+  | "C16" :: rest => C16.handle rest
   | _ => "bad-op"
 
 partial def loop (h : IO.FS.Stream) (out : IO.FS.Stream) : IO Unit := do
